@@ -31,7 +31,7 @@ Monitors on the space obtained that way (all against the description alone):
     as unsupported (NotImplementedError) is fine; nothing is stored on refusal.
 """
 from vv import c16_cond as cond
-from vv.c16_util import enc, dec
+from vv.c16_util import enc, dec, pack_tree, case_tree
 
 
 def _vkey(kind, v):
@@ -116,7 +116,8 @@ def gen_served_case(rng):
 def exec_served(ctx, route, tree, choices):
   from vizier.service import pyvizier as vz
   from vv import c16_walk
-  case = {'family': 'served', 'route': route, 'tree': tree, 'choices': enc(choices)}
+  case = {'family': 'served', 'route': route, 'tree_json': pack_tree(tree),
+          'choices': enc(choices)}
   kind_route = 'proto' if route == 'proto' else 'service'
   ctx.case(['served', route, cond.tree_shape(tree)], True)
   local = cond.build_tree(tree)
@@ -204,4 +205,4 @@ def exec_served(ctx, route, tree, choices):
 
 
 def replay_served(ctx, case):
-  exec_served(ctx, case['route'], case['tree'], dec(case['choices']))
+  exec_served(ctx, case['route'], case_tree(case), dec(case['choices']))
